@@ -73,11 +73,24 @@ def run_map(job):
                              "grid": [["load mismatch"]]})
         shutil.rmtree(tmpd, ignore_errors=True)
         return tr
+    plan = []
+    if spec.get("script"):
+        # every curve fitted and rated, then one curve after the other
+        # loses its fit in one of the ways there are, the rating and the
+        # modulus map being read after each
+        for k in range(len(curves)):
+            plan += [("fit", k, None), ("rate", k, None)]
+        plan += [("getmap", 0, "rating")]
+        ways = ["edit", "fitfails", "repre", "refit"]
+        for k in range(len(curves)):
+            plan += [(ways[(k + seed) % len(ways)], k, None),
+                     ("getmap", 0, "rating"), ("getmap", 0, "E")]
     for _ in range(nops):
-        kind = rng.choices(["fit", "refit", "fitfails", "edit", "rate",
-                            "getmap", "repre"],
-                           [4, 2, 1, 1.5, 3, 5, .7])[0]
-        k = rng.randrange(len(curves))
+        plan.append((rng.choices(["fit", "refit", "fitfails", "edit", "rate",
+                                  "getmap", "repre"],
+                                 [4, 2, 1, 1.5, 3, 5, .7])[0],
+                     rng.randrange(len(curves)), None))
+    for kind, k, feat in plan:
         idnt = grp[k]
         ev = {"op": kind, "c": curves[k], "f": "", "e": "", "cp": "",
               "r": "", "warned": False, "grid": [[""]]}
@@ -127,7 +140,8 @@ def run_map(job):
                                           training_set="zef18")
                     ev["r"] = fmt(r)
                 else:
-                    f = rng.choice(list(FEATURES))
+                    f = feat if feat in FEATURES else \
+                        rng.choice(list(FEATURES))
                     ev["f"] = f
                     g = qm.get_qmap(FEATURES[f], qmap_only=True)
                     ev["grid"] = [[fmt(v) for v in row] for row in g]
@@ -167,8 +181,12 @@ def map_specs(tier, rng):
                           "nops": 14 if tier == "quick" else 30,
                           "seed": rng.randrange(10 ** 6),
                           "via": rng.choice(["group", "path"])})
+    for i, sp in enumerate(specs):
+        sp["script"] = (i % 3 == 0)
     if tier == "quick":
-        specs = rng.sample(specs, 24)
+        scripted = [sp for sp in specs if sp["script"]]
+        specs = rng.sample(scripted, 8) + rng.sample(
+            [sp for sp in specs if not sp["script"]], 16)
     else:
         specs = specs * 3
         for s in specs:
@@ -238,6 +256,20 @@ def load_records(tmp):
     write_map(folder / "sub" / "b.h5", (1, 3), [0, 1, 2], 3)
     shutil.copy2(data / "fmt-jpk-fd_spot3-0192.jpk-force", folder / "c.jpk-force")
     observe("folder of 3 files", folder, 4 + 3 + 1)
+    # a folder tree in which different files carry the same name, and a
+    # link to one of them (a link is one more entry, as for afmformats)
+    tree = tmpd / "tree"
+    (tree / "sample1").mkdir(parents=True)
+    (tree / "sample2").mkdir()
+    write_map(tree / "sample1" / "map.h5", (2, 2), [0, 1, 2, 3], 5)
+    write_map(tree / "sample2" / "map.h5", (1, 3), [0, 1, 2], 6)
+    write_map(tree / "map.h5", (1, 2), [0, 1], 7)
+    with warnings.catch_warnings():
+        warnings.simplefilter("ignore")
+        want = sum(len(afmformats.load_data(p, modality="force-distance"))
+                   for p in afmformats.find_data(tree,
+                                                 modality="force-distance"))
+    observe("tree with equal file names", tree, want)
     # refusal of uncalibrated curves
     rec = {"label": "refusal", "count": 0, "expected_count": 0,
            "order_ok": True, "enum_unique": True, "progress_monotone": True,
